@@ -1,29 +1,499 @@
-(* Props/C10.v — partial reads/writes are harmless (primitive + decrypt layer so far; faults being added). *)
+(* Props/C10.v — property C10: partial I/O is harmless; every I/O failure is an error.
+   Statements only; proofs are in IOFacts.v, Proofs/ChunksDec.v, ChunksEnc.v, ChunksRobust.v, CombineFiles.v,
+   CombineEncFault.v, CombineDecFault.v, CombineEncPrefix.v.
+
+   Scripts.  A reader script says what each successive Read::read call does: RCap k = deliver at most k bytes
+   (fewer than requested is allowed; k = 0 is a zero-length read), RFail e = fail with I/O error e; likewise
+   WCap / WFail for Write::write and FOk / FFail for flush.  [reader_ok]/[writer_ok]: every call makes progress
+   and nothing fails.  [reader_oki]/[writer_oki]: additionally ErrorKind::Interrupted may occur at any call.
+   [twin s]: the same data and sink contents with NO script (every call fully succeeds) — the fault-free,
+   unsplit reference run.  An event is [benign] if the I/O loop containing it carries on after it.
+
+   Proved for the DECRYPT side, for EVERY offered byte string (authentic or not):
+   * schedule independence: under conforming scripts result and output equal those of the twin run;
+     Interrupted inside read_exact / write_all is retried transparently (only the log differs);
+   * fault classification for EVERY script: Ok implies no non-benign event happened; a non-benign event is
+     the LAST event of the run and determines the result: read side -> DIORead (not Interrupted), write or
+     flush side -> DIOWrite; never a panic (C09);
+   * prefix: what any run wrote is a prefix of what the twin run writes, provided no read returns 0 bytes
+     while data remains (the Read contract) — and C10_zero_read_caveat shows that this proviso is necessary.
+   Proved for the ENCRYPT side: schedule independence under conforming scripts (the output is a function of the
+   sequence of read results only, not of write caps); the round trip for all schedules on both sides; the fault
+   classification for EVERY script at the chunk layer AND at file level (key_encrypt, pass_encrypt, headers
+   included): a failing call is the last event, a failed read gives EIORead with that call's error kind
+   (Interrupted included — the encryptor's raw read(buf) calls are not retried, which the property allows), a
+   failed or zero-length write or a failed flush gives EIOWrite, Ok implies no call failed; never a panic.
+   The decrypt-side fault classification is also stated at FILE level (key_decrypt, pass_decrypt, header reads
+   included).
+   PREFIX on the ENCRYPT side, every script, chunk layer and file level: what has been written when the run
+   stops is a prefix of the documented stream / file for the read results obtained so far followed by ANY
+   continuation of the read sequence (none if end of input was already seen) — hence a prefix of what every
+   fault-free run that obtains the same read results writes (C10_enc_prefix_of_faultfree); Ok means end of
+   input was seen and everything was written.
+   Limits of what is stated: the decrypt-side prefix / schedule-independence theorems are stated for the chunk
+   phase (the only phase that writes; the header phase only reads), not re-stated at file level other than
+   through the round trips.  "Interrupted" on the encryptor's raw read(buf) is reported as EIORead Interrupted
+   (an error, as the property allows), not retried. *)
 From Kestrel Require Import Bytes Outcome IO IOFacts Prims.
-From Kestrel.Model Require Import AeadWrap Chunks.
-From Kestrel.Proofs Require Import ChunksDec.
+From Kestrel.gen Require Import Extracted.
+From Kestrel.Model Require Import AeadWrap Chunks Noise NoiseSpec Files EventPreds FilesSpec ChunksSpec ChunksRobustDefs CombineDefs
+  EncFaultDefs DecFaultDefs.
+From Kestrel.Proofs Require Import MonadFacts ChunksDec ChunksEnc ChunksRobust CombineFiles CombineEncFault CombineDecFault CombineEncPrefix.
 Local Open Scope N_scope.
 
-(* every framing read returns exactly the next n bytes, however the source splits them *)
-Theorem C10_read_exact_schedule_independent : forall n s, reader_ok (rdr s) -> (n <= length (r_data (rdr s)))%nat ->
-  exists s', read_exact n s = (Some (inr (firstn n (r_data (rdr s)))), s') /\
-             r_data (rdr s') = skipn n (r_data (rdr s)) /\ reader_ok (rdr s') /\ wtr s' = wtr s.
-Proof. exact read_exact_ok. Qed.
+(* (kept) every framing read returns exactly the next n bytes, however the source splits them *)
+Theorem C10_read_exact_schedule_independent :
+  forall (n : nat) (s : io),
+  reader_ok (rdr s) ->
+  (n <= length (r_data (rdr s)))%nat ->
+  exists s' : io,
+    read_exact n s = (Some (inr (firstn n (r_data (rdr s)))), s') /\
+    r_data (rdr s') = skipn n (r_data (rdr s)) /\ reader_ok (rdr s') /\ wtr s' = wtr s.
+Proof. exact (read_exact_ok). Qed.
 Print Assumptions C10_read_exact_schedule_independent.
 
-Theorem C10_write_all_schedule_independent : forall buf s, writer_ok (wtr s) ->
-  exists s', write_all buf s = (Some None, s') /\ w_out (wtr s') = w_out (wtr s) ++ buf /\
-             writer_ok (wtr s') /\ rdr s' = rdr s.
-Proof. exact write_all_ok. Qed.
+(* (kept) write_all delivers the whole buffer however the sink splits it *)
+Theorem C10_write_all_schedule_independent :
+  forall (buf : bytes) (s : io),
+  writer_ok (wtr s) ->
+  exists s' : io,
+    write_all buf s = (Some None, s') /\
+    w_out (wtr s') = w_out (wtr s) ++ buf /\ writer_ok (wtr s') /\ rdr s' = rdr s.
+Proof. exact (write_all_ok). Qed.
 Print Assumptions C10_write_all_schedule_independent.
 
-(* the decryptor's result on a well-formed file does not depend on the read or write schedule *)
+(* (kept) the decryptor's result on a well-formed stream does not depend on the read or write schedule *)
 Theorem C10_decrypt_schedule_independent :
-  forall (P : prims) (key aad : bytes) (cs : N), length key = 32%nat -> aead_ok P -> cs < 4294967296 ->
-  forall chunks n s fuel, chunks <> [] -> Forall (chunk_ok cs) chunks ->
-    reader_ok (rdr s) -> writer_ok (wtr s) ->
-    r_data (rdr s) = spec_chunks_from P key aad n chunks -> (length chunks <= fuel)%nat ->
-    exists s', decrypt_chunks_loop P fuel key aad cs n s = (Ok tt, s') /\
-               w_out (wtr s') = w_out (wtr s) ++ concat chunks /\ r_data (rdr s') = [].
-Proof. intros P key aad cs Hk Ha Hc. exact (dec_spec_chunks_ok P key aad cs Hk Ha Hc). Qed.
+  forall (P : prims) (key aad : bytes) (cs : N),
+  length key = 32%nat ->
+  aead_ok P ->
+  cs < 4294967296 ->
+  forall (chunks : list bytes) (n : N) (s : io) (fuel : nat),
+  chunks <> [] ->
+  Forall (chunk_ok cs) chunks ->
+  reader_ok (rdr s) ->
+  writer_ok (wtr s) ->
+  r_data (rdr s) = spec_chunks_from P key aad n chunks ->
+  (length chunks <= fuel)%nat ->
+  exists s' : io,
+    decrypt_chunks_loop P fuel key aad cs n s = (Ok tt, s') /\
+    w_out (wtr s') = w_out (wtr s) ++ concat chunks /\ r_data (rdr s') = [].
+Proof. exact (dec_spec_chunks_ok). Qed.
 Print Assumptions C10_decrypt_schedule_independent.
+
+(* DECRYPT, EVERY offered byte string (authentic or not), conforming scripts: result and output equal those of the script-free twin run — they do not depend on read caps or write caps *)
+Theorem C10_dec_schedule_independent :
+  forall (P : prims) (key aad : bytes) (cs : N) (s : io) (res : outcome derr unit) 
+    (s' : io) (res0 : outcome derr unit) (s0' : io),
+  reader_ok (rdr s) ->
+  writer_ok (wtr s) ->
+  decrypt_chunks P key aad cs s = (res, s') ->
+  decrypt_chunks P key aad cs (twin s) = (res0, s0') -> res = res0 /\ w_out (wtr s') = w_out (wtr s0').
+Proof. exact (dec_schedule_independent). Qed.
+Print Assumptions C10_dec_schedule_independent.
+
+(* in fact result and output are a FUNCTION of the offered bytes ([dec_pure_file]) under every conforming schedule *)
+Theorem C10_dec_schedule_pure :
+  forall (P : prims) (key aad : bytes) (cs : N) (s : io) (rp : outcome derr unit) (l x : list bytes),
+  reader_ok (rdr s) ->
+  writer_ok (wtr s) ->
+  dec_pure_file P key aad cs (r_data (rdr s)) = (rp, l, x) ->
+  exists s' : io, decrypt_chunks P key aad cs s = (rp, s') /\ w_out (wtr s') = w_out (wtr s) ++ concat l.
+Proof. exact (dec_sched_pure). Qed.
+Print Assumptions C10_dec_schedule_pure.
+
+(* with ErrorKind::Interrupted allowed at any read or write call: either the run equals the twin run (the interruptions were retried), or it ended with DIORead Interrupted — which only the raw one-byte end-of-file probe can produce, since it is not retried — and then what it wrote is a prefix of the twin run's output *)
+Theorem C10_dec_schedule_independent_interrupted :
+  forall (P : prims) (key aad : bytes) (cs : N) (s : io) (res : outcome derr unit) 
+    (s' : io) (res0 : outcome derr unit) (s0' : io),
+  reader_oki (rdr s) ->
+  writer_oki (wtr s) ->
+  decrypt_chunks P key aad cs s = (res, s') ->
+  decrypt_chunks P key aad cs (twin s) = (res0, s0') ->
+  res = res0 /\ w_out (wtr s') = w_out (wtr s0') \/
+  res = Err (DIORead Interrupted) /\ (exists rest : list N, w_out (wtr s0') = w_out (wtr s') ++ rest).
+Proof. exact (dec_schedule_independent_interrupted). Qed.
+Print Assumptions C10_dec_schedule_independent_interrupted.
+
+(* an Interrupted error in front of a read_exact call is retried: same result, same final state, one extra log entry *)
+Theorem C10_read_exact_interrupted :
+  forall (n : nat) (s : io) (res : option (ioerr + bytes)) (s' : io),
+  (1 <= n)%nat ->
+  read_exact n s = (res, s') ->
+  exists d : list event,
+    log s' = d ++ log s /\
+    read_exact n (push_rd (RFail Interrupted) s) =
+    (res, set_log s' (d ++ EvReadErr n Interrupted :: log s)).
+Proof. exact (read_exact_interrupted). Qed.
+Print Assumptions C10_read_exact_interrupted.
+
+(* the same for write_all *)
+Theorem C10_write_all_interrupted :
+  forall (buf : list N) (s : io) (res : option (option ioerr)) (s' : io),
+  buf <> [] ->
+  write_all buf s = (res, s') ->
+  exists d : list event,
+    log s' = d ++ log s /\
+    write_all buf (push_wr (WFail Interrupted) s) =
+    (res, set_log s' (d ++ EvWriteErr buf Interrupted :: log s)).
+Proof. exact (write_all_interrupted). Qed.
+Print Assumptions C10_write_all_interrupted.
+
+(* FAULTS, EVERY script, every offered byte string.  d = the new events of a run.  (1) Ok implies every event was benign; (2) a non-benign event is the newest event of the run (nothing happens after it), all earlier ones are benign, and it determines the result: a read-side event gives Err (DIORead ie) with ie not Interrupted, a write or flush event gives Err (DIOWrite ie) — the error identifies the failing side; (3) the result DIORead Interrupted occurs only when the newest event is an interrupted one-byte probe *)
+Theorem C10_fault_is_error :
+  forall (P : prims) (key aad : bytes) (cs : N) (s : io) (res : outcome derr unit) 
+    (s' : io) (d : list event),
+  decrypt_chunks P key aad cs s = (res, s') ->
+  log s' = d ++ log s ->
+  (res = Ok tt -> Forall benign d) /\
+  (forall e : event,
+   In e d ->
+   ~ benign e ->
+   (exists d' : list event, d = e :: d' /\ Forall benign d') /\
+   (is_read_ev e -> exists ie : ioerr, ie <> Interrupted /\ res = Err (DIORead ie)) /\
+   (is_write_ev e \/ is_flush_event e -> exists ie : ioerr, res = Err (DIOWrite ie))) /\
+  (res = Err (DIORead Interrupted) ->
+   exists d' : list event, d = EvReadErr 1 Interrupted :: d' /\ Forall benign d').
+Proof. exact (dec_fault_is_error). Qed.
+Print Assumptions C10_fault_is_error.
+
+(* the same as a single shape predicate *)
+Theorem C10_fault_shape :
+  forall (P : prims) (key aad : bytes) (cs : N) (s : io) (res : outcome derr unit) (s' : io),
+  decrypt_chunks P key aad cs s = (res, s') ->
+  exists d : list event, log s' = d ++ log s /\ fault_shape d res.
+Proof. exact (dec_fault_shape). Qed.
+Print Assumptions C10_fault_shape.
+
+(* DECRYPT, file level: what [dec_fault_statement d res] says (by definition) — the three parts of C10_fault_is_error for a result of any type *)
+Theorem C10_dec_fault_statement_meaning :
+  forall (A : Type) (d : list event) (res : outcome derr A),
+  dec_fault_statement d res <->
+  ((exists a : A, res = Ok a) -> Forall benign d) /\
+  (forall e : event,
+   In e d ->
+   ~ benign e ->
+   (exists d' : list event, d = e :: d' /\ Forall benign d') /\
+   (is_read_ev e -> exists ie : ioerr, ie <> Interrupted /\ res = Err (DIORead ie)) /\
+   (is_write_ev e \/ is_flush_event e -> exists ie : ioerr, res = Err (DIOWrite ie))) /\
+  (res = Err (DIORead Interrupted) ->
+   exists d' : list event, d = EvReadErr 1 Interrupted :: d' /\ Forall benign d').
+Proof. exact (@dec_fault_statement_unfold). Qed.
+Print Assumptions C10_dec_fault_statement_meaning.
+
+(* FAULTS, FILE level, key mode, EVERY io state: header reads and chunk phase together satisfy the statement — a failing call is the last event and yields the error of its side, Ok implies no call failed *)
+Theorem C10_key_decrypt_fault_is_error :
+  forall (P : prims) (r rpk : bytes) (s : io) (res : outcome derr bytes) (s' : io) (d : list event),
+  key_decrypt P r rpk s = (res, s') -> log s' = d ++ log s -> dec_fault_statement d res.
+Proof. exact (key_decrypt_fault_is_error). Qed.
+Print Assumptions C10_key_decrypt_fault_is_error.
+
+(* FAULTS, FILE level, password mode *)
+Theorem C10_pass_decrypt_fault_is_error :
+  forall (P : prims) (pw : bytes) (s : io) (res : outcome derr unit) (s' : io) (d : list event),
+  pass_decrypt P pw s = (res, s') -> log s' = d ++ log s -> dec_fault_statement d res.
+Proof. exact (pass_decrypt_fault_is_error). Qed.
+Print Assumptions C10_pass_decrypt_fault_is_error.
+
+(* PREFIX, every script without zero-length reads (faults allowed): what the run wrote is a prefix of what the fault-free twin run writes, and Ok implies the twin run is Ok with the same output *)
+Theorem C10_prefix_of_faultfree :
+  forall (P : prims) (key aad : bytes) (cs : N) (s : io) (res : outcome derr unit) 
+    (s' : io) (res0 : outcome derr unit) (s0' : io),
+  Forall rd_nonzero (r_script (rdr s)) ->
+  decrypt_chunks P key aad cs s = (res, s') ->
+  decrypt_chunks P key aad cs (twin s) = (res0, s0') ->
+  (exists rest : list N, w_out (wtr s0') = w_out (wtr s') ++ rest) /\
+  (res = Ok tt -> res0 = Ok tt /\ w_out (wtr s') = w_out (wtr s0')).
+Proof. exact (dec_prefix_of_faultfree). Qed.
+Print Assumptions C10_prefix_of_faultfree.
+
+(* without the proviso: the run's output is a prefix of the twin's output extended by at most the withheld final chunk *)
+Theorem C10_prefix_of_faultfree_gen :
+  forall (P : prims) (key aad : bytes) (cs : N) (s : io) (res : outcome derr unit) 
+    (s' : io) (res0 : outcome derr unit) (s0' : io),
+  decrypt_chunks P key aad cs s = (res, s') ->
+  decrypt_chunks P key aad cs (twin s) = (res0, s0') ->
+  exists pend rest : list N,
+    w_out (wtr s0') ++ pend = w_out (wtr s') ++ rest /\
+    (pend = [] \/ res0 = Err DUnexpectedData) /\
+    (res = Ok tt -> rest = [] /\ (res0 = Ok tt \/ res0 = Err DUnexpectedData)).
+Proof. exact (dec_prefix_of_faultfree_gen). Qed.
+Print Assumptions C10_prefix_of_faultfree_gen.
+
+(* THE PROVISO IS NECESSARY.  A reader that answers the end-of-file probe with a zero-length read although a byte remains (RCap 0 — a violation of the Read contract: Ok(0) means end of file) makes the decryptor accept and write the final chunk, while the twin run rejects with UnexpectedData and writes nothing *)
+Theorem C10_zero_read_caveat :
+  forall (P : prims) (key aad : list N) (cs : N) (hdr ct : list N) (pt : bytes) (junk : N),
+  length key = 32%nat ->
+  length hdr = 16%nat ->
+  de32 (hdr_last hdr) = 1 ->
+  de32 (hdr_len hdr) <= cs ->
+  length ct = (N.to_nat (de32 (hdr_len hdr)) + 16)%nat ->
+  p_open P key (noise_nonce 0) (aad ++ hdr_last hdr ++ hdr_len hdr) ct = Some pt ->
+  let s := mk_io (hdr ++ ct ++ [junk]) [RCap 16; RCap (length ct); RCap 0] [] [] in
+  exists s' s0' : io,
+    decrypt_chunks P key aad cs s = (Ok tt, s') /\
+    w_out (wtr s') = pt /\
+    decrypt_chunks P key aad cs (twin s) = (Err DUnexpectedData, s0') /\
+    w_out (wtr s0') = [] /\
+    (pt <> [] -> ~ (exists rest : list N, w_out (wtr s0') = w_out (wtr s') ++ rest)).
+Proof. exact (dec_prefix_needs_nonzero). Qed.
+Print Assumptions C10_zero_read_caveat.
+
+(* the same with an honest record followed by one junk byte *)
+Theorem C10_zero_read_caveat_honest :
+  forall (P : prims) (key : list N) (aad : bytes) (cs : N) (pt : list N) (junk : N),
+  aead_ok P ->
+  length key = 32%nat ->
+  cs < 4294967296 ->
+  N.of_nat (length pt) <= cs ->
+  pt <> [] ->
+  exists s s' s0' : io,
+    r_data (rdr s) = record P key aad 0 true pt ++ [junk] /\
+    decrypt_chunks P key aad cs s = (Ok tt, s') /\
+    decrypt_chunks P key aad cs (twin s) = (Err DUnexpectedData, s0') /\
+    ~ (exists rest : list N, w_out (wtr s0') = w_out (wtr s') ++ rest).
+Proof. exact (dec_prefix_needs_nonzero_honest). Qed.
+Print Assumptions C10_zero_read_caveat_honest.
+
+(* ENCRYPT, conforming scripts: the output is spec_chunks of the sequence of read results [reads_of] — it depends on the read script only through that sequence, and not at all on the write caps or flush script *)
+Theorem C10_encrypt_schedule_independent :
+  forall (P : prims) (key aad : bytes) (cs : N) (s : io),
+  length key = 32%nat ->
+  1 <= cs ->
+  reader_ok (rdr s) ->
+  writer_ok (wtr s) ->
+  exists s' : io,
+    encrypt_chunks P key aad cs s = (Ok tt, s') /\
+    w_out (wtr s') =
+    w_out (wtr s) ++ spec_chunks P key aad (chunks_of_reads (reads_of (N.to_nat cs) (rdr s))) /\
+    r_data (rdr s') = [] /\ reader_ok (rdr s') /\ writer_ok (wtr s').
+Proof. exact (enc_spec_ok). Qed.
+Print Assumptions C10_encrypt_schedule_independent.
+
+(* ENCRYPT side: what [enc_fault_statement d res] says about a run with new events d (newest first) and result res, unfolded (by definition): (1) Ok implies every event was benign; (2) a non-benign event is the newest event, all earlier ones are benign, a failed read determines the result EIORead with that call's error kind (not Interrupted, which is benign for the retrying loops but see (3)), a failed or zero-length write or failed flush determines EIOWrite; (3) a result EIORead ie comes from a failed read of exactly kind ie as newest event — Interrupted included: the encryptor's raw reads are not retried; (4) a result EIOWrite comes from a failing write or flush as newest event *)
+Theorem C10_enc_fault_statement_meaning :
+  forall (A : Type) (d : list event) (res : outcome eerr A),
+  enc_fault_statement d res <->
+  ((exists a : A, res = Ok a) -> Forall benign d) /\
+  (forall e : event,
+   In e d ->
+   ~ benign e ->
+   (exists d' : list event, d = e :: d' /\ Forall benign d') /\
+   (is_read_ev e ->
+    exists (n : nat) (ie : ioerr), e = EvReadErr n ie /\ ie <> Interrupted /\ res = Err (EIORead ie)) /\
+   (is_write_ev e \/ is_flush_event e -> exists ie : ioerr, res = Err (EIOWrite ie))) /\
+  (forall ie : ioerr,
+   res = Err (EIORead ie) ->
+   exists (n : nat) (d' : list event), d = EvReadErr n ie :: d' /\ Forall benign d') /\
+  (forall ie : ioerr,
+   res = Err (EIOWrite ie) ->
+   exists (e : event) (d' : list event),
+     d = e :: d' /\ Forall benign d' /\ ~ benign e /\ (is_write_ev e \/ is_flush_event e)).
+Proof. exact (@enc_fault_statement_unfold). Qed.
+Print Assumptions C10_enc_fault_statement_meaning.
+
+(* ENCRYPT, chunk layer, EVERY io state (any data, any script with faults at any call): the statement above holds *)
+Theorem C10_enc_fault_is_error :
+  forall (P : prims) (key aad : bytes) (cs : N) (s : io) (res : outcome eerr unit) 
+    (s' : io) (d : list event),
+  encrypt_chunks P key aad cs s = (res, s') -> log s' = d ++ log s -> enc_fault_statement d res.
+Proof. exact (enc_fault_is_error). Qed.
+Print Assumptions C10_enc_fault_is_error.
+
+(* ENCRYPT, FILE level, key mode, every io state, all keys: the same, header writes included *)
+Theorem C10_key_encrypt_fault_is_error :
+  forall (P : prims) (fresh_pk fresh_e sk spk r : bytes) (e epk pk : option bytes) 
+    (s : io) (res : outcome eerr unit) (s' : io) (d : list event),
+  key_encrypt P fresh_pk fresh_e sk spk r e epk pk s = (res, s') ->
+  log s' = d ++ log s -> enc_fault_statement d res.
+Proof. exact (key_encrypt_fault_is_error). Qed.
+Print Assumptions C10_key_encrypt_fault_is_error.
+
+(* ENCRYPT, FILE level, password mode *)
+Theorem C10_pass_encrypt_fault_is_error :
+  forall (P : prims) (pw salt : bytes) (s : io) (res : outcome eerr unit) (s' : io) (d : list event),
+  pass_encrypt P pw salt s = (res, s') -> log s' = d ++ log s -> enc_fault_statement d res.
+Proof. exact (pass_encrypt_fault_is_error). Qed.
+Print Assumptions C10_pass_encrypt_fault_is_error.
+
+(* ... and never a panic: every io state, result Ok or Err *)
+Theorem C10_pass_encrypt_no_panic :
+  forall P : prims,
+  hash_ok P ->
+  forall (pw salt : bytes) (s : io) (res : outcome eerr unit) (s' : io),
+  pass_encrypt P pw salt s = (res, s') -> ok_or_err res.
+Proof. exact (pass_encrypt_no_panic). Qed.
+Print Assumptions C10_pass_encrypt_no_panic.
+
+(* key mode likewise (keys of 32 bytes: type invariants of the API) *)
+Theorem C10_key_encrypt_no_panic :
+  forall P : prims,
+  hash_ok P ->
+  forall (fresh_pk fresh_e : bytes) (sk : list N) (spk : bytes) (rpk : list N) 
+    (e epk pk : option bytes) (e' epk' : bytes) (s : io) (res : outcome eerr unit) 
+    (s' : io),
+  eph_of P fresh_e e epk = (e', epk') ->
+  length e' = 32%nat ->
+  length sk = 32%nat ->
+  length rpk = 32%nat ->
+  length (payload_of fresh_pk pk) = 32%nat ->
+  key_encrypt P fresh_pk fresh_e sk spk rpk e epk pk s = (res, s') -> ok_or_err res.
+Proof. exact (key_encrypt_no_panic). Qed.
+Print Assumptions C10_key_encrypt_no_panic.
+
+(* ENCRYPT PREFIX, chunk layer, EVERY io state (faults at any call).  tr = the new events, R = reads_until_empty (read_results tr) = the non-empty read results obtained, in order, up to the first empty one; saw_eof = some read returned 0 bytes.  For every continuation T of the read sequence (T = [] if end of input was seen) the bytes W written by the run are a prefix of spec_chunks (chunks_of_reads (R ++ T)); and Ok implies end of input was seen and W is the whole stream for R *)
+Theorem C10_enc_prefix :
+  forall (P : prims) (key aad : bytes) (cs : N),
+  length key = 32%nat ->
+  forall (s : io) (r : outcome eerr unit) (s' : io),
+  encrypt_chunks P key aad cs s = (r, s') ->
+  exists (tr : list event) (W : list N),
+    trace s' = trace s ++ tr /\
+    w_out (wtr s') = w_out (wtr s) ++ W /\
+    (forall T : list bytes,
+     (saw_eof (read_results tr) = true -> T = []) ->
+     exists rest : list N,
+       spec_chunks P key aad (chunks_of_reads (reads_until_empty (read_results tr) ++ T)) = W ++ rest) /\
+    (r = Ok tt ->
+     saw_eof (read_results tr) = true /\
+     W = spec_chunks P key aad (chunks_of_reads (reads_until_empty (read_results tr)))).
+Proof. exact (enc_prefix). Qed.
+Print Assumptions C10_enc_prefix.
+
+(* hence: W is a prefix of what EVERY fault-free conforming run s0 writes whose sequence of read results begins with the same R (is exactly R if the faulty run saw end of input) — "what has been written so far is a prefix of what the fault-free run writes"; if the first run is Ok the two outputs are equal *)
+Theorem C10_enc_prefix_of_faultfree :
+  forall (P : prims) (key aad : bytes) (cs : N),
+  length key = 32%nat ->
+  forall (s : io) (r : outcome eerr unit) (s' s0 : io),
+  1 <= cs ->
+  encrypt_chunks P key aad cs s = (r, s') ->
+  reader_ok (rdr s0) ->
+  writer_ok (wtr s0) ->
+  exists (tr : list event) (W : list N),
+    trace s' = trace s ++ tr /\
+    w_out (wtr s') = w_out (wtr s) ++ W /\
+    (forall T : list bytes,
+     reads_of (N.to_nat cs) (rdr s0) = reads_until_empty (read_results tr) ++ T ->
+     (saw_eof (read_results tr) = true -> T = []) ->
+     exists (s0' : io) (rest : list N),
+       encrypt_chunks P key aad cs s0 = (Ok tt, s0') /\
+       w_out (wtr s0') = w_out (wtr s0) ++ W ++ rest /\ (r = Ok tt -> rest = [])).
+Proof. exact (enc_prefix_of_faultfree). Qed.
+Print Assumptions C10_enc_prefix_of_faultfree.
+
+(* ENCRYPT PREFIX, FILE level, password mode, every io state: prefix of the documented password file, header included *)
+Theorem C10_pass_encrypt_prefix :
+  forall P : prims,
+  hash_ok P ->
+  forall (pw salt : bytes) (s : io) (r : outcome eerr unit) (s' : io),
+  pass_encrypt P pw salt s = (r, s') ->
+  exists (tr : list event) (W : list N),
+    trace s' = trace s ++ tr /\
+    w_out (wtr s') = w_out (wtr s) ++ W /\
+    (forall T : list bytes,
+     (saw_eof (read_results tr) = true -> T = []) ->
+     exists rest : list N,
+       spec_pass_file P pw salt (chunks_of_reads (reads_until_empty (read_results tr) ++ T)) = W ++ rest) /\
+    (r = Ok tt ->
+     saw_eof (read_results tr) = true /\
+     W = spec_pass_file P pw salt (chunks_of_reads (reads_until_empty (read_results tr)))).
+Proof. exact (pass_encrypt_prefix). Qed.
+Print Assumptions C10_pass_encrypt_prefix.
+
+(* ENCRYPT PREFIX, FILE level, key mode, every io state (when the Noise layer refuses, nothing is written at all: C05) *)
+Theorem C10_key_encrypt_prefix :
+  forall P : prims,
+  hash_ok P ->
+  forall (fresh_pk fresh_e sk spk rpk : bytes) (e epk pk : option bytes) (msg hh : bytes) 
+    (s : io) (r : outcome eerr unit) (s' : io),
+  length (payload_of fresh_pk pk) = 32%nat ->
+  noise_encrypt P fresh_e sk spk rpk e epk x_prologue (payload_of fresh_pk pk) = Ok (msg, hh) ->
+  key_encrypt P fresh_pk fresh_e sk spk rpk e epk pk s = (r, s') ->
+  exists (tr : list event) (W : list N),
+    trace s' = trace s ++ tr /\
+    w_out (wtr s') = w_out (wtr s) ++ W /\
+    (forall T : list bytes,
+     (saw_eof (read_results tr) = true -> T = []) ->
+     exists rest : list N,
+       spec_key_file P msg hh (payload_of fresh_pk pk)
+         (chunks_of_reads (reads_until_empty (read_results tr) ++ T)) = W ++ rest) /\
+    (r = Ok tt ->
+     saw_eof (read_results tr) = true /\
+     W =
+     spec_key_file P msg hh (payload_of fresh_pk pk)
+       (chunks_of_reads (reads_until_empty (read_results tr)))).
+Proof. exact (key_encrypt_prefix). Qed.
+Print Assumptions C10_key_encrypt_prefix.
+
+(* decrypt after encrypt is the identity for all conforming schedules on both sides (chunk layer; file level: C01, C02) *)
+Theorem C10_roundtrip_all_schedules :
+  forall (P : prims) (key aad : bytes) (cs : N) (s s' s2 : io) (r : outcome eerr unit),
+  aead_ok P ->
+  length key = 32%nat ->
+  1 <= cs ->
+  cs < 4294967296 ->
+  reader_ok (rdr s) ->
+  writer_ok (wtr s) ->
+  encrypt_chunks P key aad cs s = (r, s') ->
+  reader_ok (rdr s2) ->
+  writer_ok (wtr s2) ->
+  w_out (wtr s') = w_out (wtr s) ++ r_data (rdr s2) ->
+  r = Ok tt /\
+  (exists s2' : io,
+     decrypt_chunks P key aad cs s2 = (Ok tt, s2') /\
+     w_out (wtr s2') = w_out (wtr s2) ++ r_data (rdr s) /\ r_data (rdr s2') = []).
+Proof. exact (chunk_roundtrip_gen). Qed.
+Print Assumptions C10_roundtrip_all_schedules.
+
+(* file level, key mode (this is C01's general form) *)
+Theorem C10_key_file_roundtrip_all_schedules :
+  forall (P : prims) (fresh_pk fresh_e : bytes) (s r : list N) (e epk pk : option bytes) (e' : bytes),
+  aead_ok P ->
+  hash_ok P ->
+  dh_comm P ->
+  eph_of P fresh_e e epk = (e', dh_pub P e') ->
+  length e' = 32%nat ->
+  length s = 32%nat ->
+  length r = 32%nat ->
+  length (payload_of fresh_pk pk) = 32%nat ->
+  all_zero (p_dh P e' (dh_pub P r)) = false ->
+  all_zero (p_dh P s (dh_pub P r)) = false ->
+  forall s0 : io,
+  reader_ok (rdr s0) ->
+  writer_ok (wtr s0) ->
+  exists (s0' : io) (F : list N),
+    key_encrypt P fresh_pk fresh_e s (dh_pub P s) (dh_pub P r) e epk pk s0 = (Ok tt, s0') /\
+    w_out (wtr s0') = w_out (wtr s0) ++ F /\
+    (forall s1 : io,
+     reader_ok (rdr s1) ->
+     writer_ok (wtr s1) ->
+     r_data (rdr s1) = F ->
+     exists s1' : io,
+       key_decrypt P r (dh_pub P r) s1 = (Ok (dh_pub P s), s1') /\
+       w_out (wtr s1') = w_out (wtr s1) ++ r_data (rdr s0) /\ r_data (rdr s1') = []).
+Proof. exact (key_file_roundtrip_gen). Qed.
+Print Assumptions C10_key_file_roundtrip_all_schedules.
+
+(* file level, password mode (C02's general form) *)
+Theorem C10_pass_file_roundtrip_all_schedules :
+  forall (P : prims) (pw : bytes) (salt : list N),
+  aead_ok P ->
+  hash_ok P ->
+  length salt = 32%nat ->
+  forall s0 : io,
+  reader_ok (rdr s0) ->
+  writer_ok (wtr s0) ->
+  exists (s0' : io) (F : list N),
+    pass_encrypt P pw salt s0 = (Ok tt, s0') /\
+    w_out (wtr s0') = w_out (wtr s0) ++ F /\
+    firstn 36 F = x_pass_file_magic ++ salt /\
+    (forall s1 : io,
+     reader_ok (rdr s1) ->
+     writer_ok (wtr s1) ->
+     r_data (rdr s1) = F ->
+     exists s1' : io,
+       pass_decrypt P pw s1 = (Ok tt, s1') /\
+       w_out (wtr s1') = w_out (wtr s1) ++ r_data (rdr s0) /\ r_data (rdr s1') = []).
+Proof. exact (pass_file_roundtrip_gen). Qed.
+Print Assumptions C10_pass_file_roundtrip_all_schedules.
+
